@@ -137,7 +137,16 @@ pub fn materialise_rec(rec: &Rec, k: usize, earlier: &[u8]) -> Vec<u8> {
                 out.push(b2c(*mid));
                 out.extend(revcomp(&a));
             }
-            SeqOp::PolyA(n) => out.extend(std::iter::repeat(b'A').take(*n as usize)),
+            // 1..69: that many A; 70..255: a homopolymer of C, G or T of 1..62 bases (two such ops in a row
+            // give a junction X^m Y^n: consecutive windows with the same arms and different middle bases)
+            SeqOp::PolyA(n) => {
+                if *n < 70 {
+                    out.extend(std::iter::repeat(b'A').take(*n as usize))
+                } else {
+                    let base = [b'C', b'G', b'T'][(*n as usize - 70) % 3];
+                    out.extend(std::iter::repeat(base).take(1 + (*n as usize - 70) / 3))
+                }
+            }
         }
     }
     if let Some(sel) = rec.force_len {
@@ -205,7 +214,7 @@ pub fn seqop_strategy(k: usize) -> BoxedStrategy<SeqOp> {
         4 => (any::<u16>(), 0u8..64, any::<bool>(), 0u8..4)
             .prop_map(|(src, extra, rc, mid)| SeqOp::Copy { src, extra, rc, mid }),
         1 => (vec(0u8..4, 1..6), 0u8..4).prop_map(|(arm, mid)| SeqOp::Pal { arm, mid }),
-        1 => (1u8..70).prop_map(SeqOp::PolyA),
+        2 => (1u8..=255).prop_map(SeqOp::PolyA),
     ]
     .boxed()
 }
